@@ -634,6 +634,17 @@ def programs(cfg):
     return progs
 
 
+def programs3(cfg):
+    """3 threads, one operation each (thorough)"""
+    kind = cfg["kind"]
+
+    def put(k, v):
+        return ["put", k, v, 1.0] if kind == "hybrid" else ["put", k, v]
+
+    single = [["get", "a"], put("a", 2), put("b", 1), ["clear"]]
+    return [[[single[x]], [single[y]], [single[z]]] for x, y, z in itertools.combinations_with_replacement(range(len(single)), 3)]
+
+
 def inits(cfg):
     kind = cfg["kind"]
     a = ["put", "a", 1, 1.0] if kind == "hybrid" else ["put", "a", 1]
@@ -830,6 +841,9 @@ def plan(tier, seed):
                 progs = programs(cfg)
                 for pi in range(len(progs)):
                     units.append((f"B-interleavings-preemptions<={bound}", ("B", cfg, ii, pi, bound)))
+                if tier == "thorough":
+                    for pi in range(len(programs3(cfg))):
+                        units.append(("B-three-threads-preemptions<=2", ("B3", cfg, ii, pi, 2)))
     dbound = 1 if tier == "quick" else 2
     for lru in (False, True):
         for ms in (1, 2):
@@ -888,6 +902,16 @@ def run_unit(unit):
             acc.violation(sig, {"part": "B", "cfg": cfg, "init": init, "prog": prog, "choices": choices}, text)
         if pi == 0:
             acc.sample({"part": "B", "cfg": cfg, "init": init, "prog": prog, "executions": n, "distinct_outcomes": nout})
+    elif part == "B3":
+        _, cfg, ii, pi, bound = unit
+        init, prog = inits(cfg)[ii], programs3(cfg)[pi]
+        vs, n, nout = run_program(cfg, init, prog, bound, acc)
+        acc.states += 1
+        acc.case(hash(("B3", str(cfg), ii, pi)), n=n)
+        acc.stratum("B-3-thread-programs")
+        acc.stratum("B-executions", n)
+        for sig, text, choices in vs:
+            acc.violation(sig, {"part": "B", "cfg": cfg, "init": init, "prog": prog, "choices": choices}, text)
     elif part == "D":
         _, cfg, init, pi, bound = unit
         prog = disk_programs()[pi]
